@@ -21,11 +21,13 @@ LEVEL = 'proof'
 HERE = os.path.dirname(os.path.dirname(os.path.abspath(__file__)))
 
 NUMPY_TO_LEAN = {'cos': 'Real.cos', 'sin': 'Real.sin', 'tan': 'Real.tan', 'arcsin': 'Real.arcsin', 'arccos': 'Real.arccos', 'arctan': 'Real.arctan',
-                 'cosh': 'Real.cosh', 'sinh': 'Real.sinh', 'tanh': 'Real.tanh', 'exp': 'Real.exp', 'log': 'Real.log', 'minimum': 'min', 'maximum': 'max'}
+                 'cosh': 'Real.cosh', 'sinh': 'Real.sinh', 'tanh': 'Real.tanh', 'exp': 'Real.exp', 'log': 'Real.log', 'minimum': 'min', 'maximum': 'max',
+                 'arctanh': 'Real.artanh', 'arctan2': 'nparctan2'}
 
 # domain of differentiability (hypothesis text) per class -- the property's "where the expression is differentiable"
 DOMAIN = {'Tan': '(h : Real.cos x ≠ 0)', 'ArcSin': '(h1 : x ≠ -1) (h2 : x ≠ 1)', 'ArcCos': '(h1 : x ≠ -1) (h2 : x ≠ 1)', 'Log': '(h : 0 < x)',
-          'Minimum': '(h : x ≠ y)', 'Maximum': '(h : x ≠ y)'}
+          'Minimum': '(h : x ≠ y)', 'Maximum': '(h : x ≠ y)', 'ArcTanH': '(h1 : -1 < x) (h2 : x < 1)',
+          'ArcTan2': '(hy : 0 < y)'}  # ArcTan2: the half plane y > 0 only (numpy.arctan2(x, y) = arctan(x / y) there); the other half planes are not proved
 
 PRELUDE = '''import Mathlib
 open Real
@@ -35,6 +37,10 @@ theorem npsign_neg {t : ℝ} (h : t < 0) : npsign t = -1 := by
   have h2 : ¬ (0 < t) := by linarith
   simp [npsign, h, h2]
 theorem npsign_pos {t : ℝ} (h : 0 < t) : npsign t = 1 := by simp [npsign, h]
+/-- numpy.arctan2 on reals: the angle of the point (y, x) -/
+noncomputable def nparctan2 (x y : ℝ) : ℝ :=
+  if 0 < y then Real.arctan (x / y) else if 0 < x then π / 2 - Real.arctan (y / x)
+  else if x < 0 then -(π / 2) - Real.arctan (y / x) else if y < 0 then π else 0
 '''
 
 
@@ -74,7 +80,7 @@ def minmax_proof(fn, var, left_is_id):
 PROOFS = {
     ('Cos', 0): '  simpa using Real.hasDerivAt_cos x\n',
     ('Sin', 0): '  simpa using Real.hasDerivAt_sin x\n',
-    ('Tan', 0): '  have := Real.hasDerivAt_tan h\n  convert this using 1\n  field_simp\n',
+    ('Tan', 0): '  have := Real.hasDerivAt_tan h\n  convert this using 1\n  try field_simp\n  try ring\n',
     ('ArcSin', 0): '  have := Real.hasDerivAt_arcsin h1 h2\n  convert this using 1\n  simp\n',
     ('ArcCos', 0): '  have := Real.hasDerivAt_arccos h1 h2\n  convert this using 1\n  simp\n',
     ('ArcTan', 0): "  simpa using Real.hasDerivAt_arctan' x\n",
@@ -88,14 +94,63 @@ PROOFS = {
   rw [e]
   convert h using 1
   rw [Real.tanh_eq_sinh_div_cosh]
-  field_simp
+  try field_simp
+  try ring
 ''',
     ('Exp', 0): '  simpa using Real.hasDerivAt_exp x\n',
     ('Log', 0): "  simpa using Real.hasDerivAt_log h.ne'\n",
+    ('ArcTanH', 0): '''  have hpos1 : 0 < 1 + x := by linarith
+  have hpos2 : 0 < 1 - x := by linarith
+  have hq : HasDerivAt (fun t : ℝ => (1 + t) / (1 - t)) (((1:ℝ) * (1 - x) - (1 + x) * (-1)) / (1 - x)^2) x := by
+    have a : HasDerivAt (fun t : ℝ => 1 + t) 1 x := by simpa using (hasDerivAt_id x).const_add 1
+    have b : HasDerivAt (fun t : ℝ => 1 - t) (-1) x := by simpa using (hasDerivAt_id x).const_sub 1
+    exact a.div b hpos2.ne'
+  have hl : HasDerivAt (fun t : ℝ => (1/2:ℝ) * Real.log ((1 + t) / (1 - t))) ((1/2:ℝ) * ((((1:ℝ) * (1 - x) - (1 + x) * (-1)) / (1 - x)^2) / ((1 + x) / (1 - x)))) x :=
+    (hq.log (div_pos hpos1 hpos2).ne').const_mul (1/2:ℝ)
+  have ev : (fun t => Real.artanh t) =ᶠ[nhds x] (fun t : ℝ => (1/2:ℝ) * Real.log ((1 + t) / (1 - t))) := by
+    filter_upwards [Ioo_mem_nhds h1 h2] with t ht
+    exact Real.artanh_eq_half_log ⟨ht.1.le, ht.2.le⟩
+  have hne : (1:ℝ) - x ^ (2:ℕ) ≠ 0 := by nlinarith
+  have e : (DERIV) = (1/2:ℝ) * ((((1:ℝ) * (1 - x) - (1 + x) * (-1)) / (1 - x)^2) / ((1 + x) / (1 - x))) := by
+    have a := hpos1.ne'
+    have b := hpos2.ne'
+    try field_simp
+    try ring
+  rw [e]
+  exact hl.congr_of_eventuallyEq ev
+''',
+    ('ArcTan2', 0): '''  have ef : (fun t => nparctan2 t y) = (fun t => Real.arctan (t / y)) := by
+    funext t; simp [nparctan2, hy]
+  rw [ef]
+  have hq : HasDerivAt (fun t : ℝ => t / y) (1 / y) x := by simpa using (hasDerivAt_id x).div_const y
+  have hl := hq.arctan
+  have hne : (x ^ (2:ℕ) + y ^ (2:ℕ)) ≠ 0 := by positivity
+  have e : (DERIV) = (1 / (1 + (x / y) ^ 2)) * (1 / y) := by
+    have b := hy.ne'
+    try field_simp
+    try ring
+  rw [e]
+  exact hl
+''',
+    ('ArcTan2', 1): '''  have ev : (fun t => nparctan2 x t) =ᶠ[nhds y] (fun t => Real.arctan (x / t)) := by
+    filter_upwards [lt_mem_nhds hy] with t ht
+    simp [nparctan2, ht]
+  have hq : HasDerivAt (fun t : ℝ => x / t) (-x / y ^ 2) y := by
+    have := (hasDerivAt_inv hy.ne').const_mul x
+    simpa [div_eq_mul_inv, mul_comm, neg_div] using this
+  have hl := hq.arctan
+  have hne : (x ^ (2:ℕ) + y ^ (2:ℕ)) ≠ 0 := by positivity
+  have e : (DERIV) = (1 / (1 + (x / y) ^ 2)) * (-x / y ^ 2) := by
+    have b := hy.ne'
+    try field_simp
+    try ring
+  rw [e]
+  exact hl.congr_of_eventuallyEq ev
+''',
     ('Minimum', 0): minmax_proof('min', 0, True), ('Minimum', 1): minmax_proof('min', 1, True),
     ('Maximum', 0): minmax_proof('max', 0, True), ('Maximum', 1): minmax_proof('max', 1, True),
 }
-CLASSES = ['Cos', 'Sin', 'Tan', 'ArcSin', 'ArcCos', 'ArcTan', 'CosH', 'SinH', 'TanH', 'Exp', 'Log', 'Minimum', 'Maximum']
+CLASSES = ['Cos', 'Sin', 'Tan', 'ArcSin', 'ArcCos', 'ArcTan', 'CosH', 'SinH', 'TanH', 'ArcTanH', 'Exp', 'Log', 'ArcTan2', 'Minimum', 'Maximum']
 
 
 class Untranslatable(Exception):
@@ -145,7 +200,7 @@ def lean_of(n, params):
             return '(Real.sqrt %s)' % lean_of(n.args[0], params)
         if f == 'Sign':
             return '(npsign %s)' % lean_of(n.args[0], params)
-        if f in CLASSES + ['ArcTanH']:
+        if f in CLASSES:
             try:
                 lf = NUMPY_TO_LEAN[numpy_name(f)]
             except KeyError:
@@ -281,6 +336,6 @@ TRUSTED = ['Lean 4.33 kernel + Mathlib (HasDerivAt lemmas for the elementary fun
            'numpy elementary functions equal their real counterparts on the reals; floats are reals; numpy.sign as defined in the prelude',
            'the chain rule plumbing of Pointwise._derivative (einsum of deriv_k with the derivative of argument k) is NOT proved']
 ASSUMPTIONS = ['domains of differentiability per class as listed in contracts/C04.py (cos x != 0, x != +-1, x > 0, x != y)',
-               'ArcTanH, ArcTan2, Sinc, Power, and all array-level _derivative methods are not covered']
+               'ArcTan2 only on the half plane y > 0; Sinc, Power, and all array-level _derivative methods are not covered']
 NOT_COVERED = ['the chain rule through arrays (einsum plumbing), Multiply/Inverse/Determinant/Product/Polyval/LoopSum/Inflate/Take _derivative, WithDerivative targets, function._Derivative',
                'shape of the derivative, repeated differentiation, integer/boolean zero rule']
